@@ -1341,8 +1341,8 @@ def replay(ck, path):
 
 def main():
     ck = Check("C01", "translation_validation")
-    ck.lean_stage(["VelaVerif.Props.C01", "VelaVerif.Props.C01Rewrites", "VelaVerif.Props.C01Wide", "VelaVerif.Props.C01Packing",
-                   "VelaVerif.Props.C01Slice", "VelaVerif.Props.C01StridedSlice"])
+    ck.lean_stage(["VelaVerif.Props.C01", "VelaVerif.Props.C01Rewrites", "VelaVerif.Props.C01Rewrites2", "VelaVerif.Props.C01Wide",
+                   "VelaVerif.Props.C01Packing", "VelaVerif.Props.C01Slice", "VelaVerif.Props.C01StridedSlice"])
     if ck.replay_arg:
         replay(ck, ck.replay_arg)
     import pipeline
@@ -1353,7 +1353,7 @@ def main():
     import time
 
     t0 = time.time()
-    rw = c01_rewrites.run(ck)
+    rw = c01_rewrites.run(ck, also=("c01_rewrites2",))
     ck.count("seconds_rewrite_streams", round(time.time() - t0))
     # STRIDED_SLICE specification streams (Spec/StridedSliceRef.lean vs NumPy; the real constraint_slice_ranges vs the Spec)
     import c01_ssmask
